@@ -416,7 +416,7 @@ func run(rt *rapid.T) {
 				}
 				v := mptkit.GenValue(rt, "iv")
 				st = step{Kind: "ins", Trie: c.name, Path: p, Val: fmt.Sprintf("%x", v)}
-				_, err := c.mpt.Insert(util.Path(p), mptkit.Val(v))
+				_, err := mptkit.InsertReused(c.mpt, p, v)
 				if err != nil {
 					if !c.stale {
 						w.steps = append(w.steps, st)
